@@ -25,6 +25,7 @@ Flip(c) == IF IsUpper(c) THEN c + 32 ELSE IF IsLower(c) THEN c - 32 ELSE c
 \* all case variants: for each subset of positions, flip those
 CaseVariants(n) == { SubSeq([j \in 1..Len(n) |-> IF j \in S THEN Flip(n[j]) ELSE n[j]], 1, Len(n)) : S \in SUBSET (1..Len(n)) }
 
+LowerUpper(n) == SubSeq([j \in 1..Len(n) |-> Flip(n[j])], 1, Len(n))
 Short == UNION { [1..k -> Alpha] : k \in 0..3 }
 
 Del(n, p)     == SubSeq(n, 1, p - 1) \o SubSeq(n, p + 1, Len(n))
@@ -34,11 +35,19 @@ Swp(n, p)     == SubSeq(n, 1, p - 1) \o <<n[p + 1], n[p]>> \o SubSeq(n, p + 2, L
 Edits(n) == { Del(n, p) : p \in 1..Len(n) } \cup { Ins(n, p, c) : p \in 1..(Len(n) + 1), c \in Alpha }
             \cup { Sub(n, p, c) : p \in 1..Len(n), c \in Alpha } \cup { Swp(n, p) : p \in 1..(Len(n) - 1) }
 
+\* names that EXTEND a table name by 1..12 bytes (the hash buckets only know the first byte and the length mod 4) and
+\* proper prefixes of table names
+Fill1 == <<65, 66, 67, 68, 49, 50, 51, 52, 45, 101, 120, 116>>      \* "ABCD1234-ext"
+Fill2 == <<45, 116, 97, 103, 115, 116, 97, 109, 112, 45, 105, 100>>  \* "-tagstamp-id"
+Ext(n) == { n \o SubSeq(Fill1, 1, k) : k \in 1..12 } \cup { n \o SubSeq(Fill2, 1, k) : k \in 1..12 }
+          \cup { SubSeq(n, 1, j) : j \in 1..(Len(n) - 1) } \cup { SubSeq(Fill1, 1, k) \o n : k \in {1, 4} }
+
 \* the state is a CHOICE, the name is computed from it (cheap initial-state enumeration)
 Init == CASE Part = "cases" -> nm \in UNION { CaseVariants(n) : n \in { x \in AllNames : Len(x) <= 14 } }
           [] Part = "caseslong" -> nm \in CaseVariants(HdrNameTable[19].n)
           [] Part = "short" -> nm \in { SubSeq(f, 1, Len(f)) : f \in Short }
           [] Part = "edits" -> nm \in UNION { Edits(n) : n \in AllNames }
+          [] Part = "ext" -> nm \in UNION { Ext(n) \cup UNION { Ext(v) : v \in {LowerUpper(n)} } : n \in AllNames }
 Next == FALSE /\ UNCHANGED nm
 Spec == Init /\ [][Next]_nm
 
